@@ -5,6 +5,7 @@ go 1.25
 require (
 	github.com/sarchlab/akita/v4 v4.9.0
 	github.com/sarchlab/mgpusim/v4 v4.0.0
+	github.com/sirupsen/logrus v1.9.3
 )
 
 require (
